@@ -345,3 +345,17 @@ def rule_fixpoint(run, F, cfg):
     run.ob("C09.4.fixpoint", "post-load-mutation", ok,
            f"after decoding, Engine::deserialize only re-applies the caller's tags ({sorted(set(muts))})",
            site=e.loc(0), config=cfg)
+
+    # the per-hostname store never drops what the loader (or the builder) hands it
+    ins = F.fn("cosmetic_filter_cache::HostnameFilterBin::<T>::insert")
+    run.touched(ins)
+    stores = [b for b, t in ins.calls(r"^std::vec::Vec::push$|^std::collections::HashMap::insert$")]
+    free = ins.reachable_from(0, avoid=set(stores))
+    leak = sorted(set(ins.exits()) & set(free))
+    run.ob("C09.4.fixpoint", "bin-insert-unconditional", bool(stores) and not leak,
+           "HostnameFilterBin::insert stores its argument on every path (push into the existing bucket or "
+           "insert of a fresh one): the v0 loader rebuilds each bin entry by entry through it, and the wire "
+           "form carries less than the in-memory entry (no permission mask), so any value-dependent skip "
+           "(de-duplication, filtering) makes the reloaded engine serialize differently",
+           site=ins.loc(leak[0]) if leak else ins.loc(0), config=cfg,
+           detail=f"store blocks {stores}; exits reachable without a store: {leak}")
